@@ -124,6 +124,7 @@ typedef struct CPlan {
     /* c16 */
     char prog[32]; int tok;
     int fstep, fk, fkind;      /* fault step class, call index k (1-based), fault kind */
+    int linger;                /* after a garbled reply the co-process ignores EOF/SHUTDOWN and must be terminated by the VM */
     int exec_missing;
 } CPlan;
 
@@ -139,9 +140,10 @@ static void gen_src(CPlan *P, Buf *src) {
 enum { FS_BEFORE_READY = 0, FS_AFTER_READY, FS_REQ_READ, FS_BEFORE_REPLY, FS_MID_REPLY, FS_EXEC_FAIL, FS_NSTEPS };
 static const char *fs_name[] = { "before_ready", "after_ready", "on_request_read", "before_reply", "mid_reply", "exec_fail" };
 enum { FK_EXIT0 = 0, FK_EXIT1, FK_KILL, FK_CLOSE_IN, FK_CLOSE_OUT, FK_SHORT_HDR, FK_BAD_VERSION, FK_BAD_TYPE, FK_OVERSIZE,
-       FK_SHORT_PAYLOAD, FK_UNDEC_STRLEN, FK_UNDEC_ARRCOUNT, FK_UNDEC_TAG, FK_NKINDS };
+       FK_SHORT_PAYLOAD, FK_UNDEC_STRLEN, FK_UNDEC_ARRCOUNT, FK_UNDEC_TAG, FK_UNDEC_STRLEN_WRAP, FK_UNDEC_NESTED, FK_NKINDS };
 static const char *fk_name[] = { "exit0", "exit1", "sigkill", "close_stdin", "close_stdout", "short_header", "bad_version", "bad_type",
-                                 "oversize_len", "short_payload", "undecodable_strlen", "undecodable_arrcount", "unknown_tag" };
+                                 "oversize_len", "short_payload", "undecodable_strlen", "undecodable_arrcount", "unknown_tag",
+                                 "undecodable_strlen_wrap", "undecodable_nested_array" };
 typedef struct Cell { int step, kind; } Cell;
 static Cell cells[128]; static int ncells;
 static void cells_init(void) {
@@ -180,7 +182,11 @@ static void plan_gen(CPlan *P, uint64_t seed, const RunOpts *o) {
         cells_init();
         Cell c = cells[seed % (uint64_t)ncells];     /* every cell is visited round-robin; the rest is seeded */
         P->fstep = c.step; P->fkind = c.kind; P->fk = 1 + (int)sim_rndn(3);
-        snprintf(P->prog, sizeof P->prog, "copcalls"); P->tok = (int)sim_rndn(8);
+        /* size class of the faulted call: copbig's calls need heap buffers for request and reply */
+        snprintf(P->prog, sizeof P->prog, "%s", sim_rndn(3) == 0 ? "copbig" : "copcalls"); P->tok = (int)sim_rndn(8);
+        /* only after a COMPLETE (if garbled) message: a peer that sends half a message and then stalls with the pipe
+         * open cannot be told from a slow peer and is outside the property's fault list */
+        P->linger = c.kind >= FK_BAD_VERSION && c.kind != FK_SHORT_PAYLOAD && c.kind != FK_UNDEC_TAG && sim_rndn(3) == 0;
         return;
     }
     /* c15: a small pool of generated programs per tier so that compile cost is shared by many schedules */
@@ -212,7 +218,7 @@ static void plan_print(CPlan *P, uint64_t seed, Buf *b) {
     buf_printf(b, "family cop\nsub %s\nseed %llu\n", P->sub, (unsigned long long)seed);
     knobs_print(b);
     if (strcmp(P->sub, "c16") == 0) {
-        buf_printf(b, "prog %s %d\nfault step=%s k=%d kind=%s\n", P->prog, P->tok, fs_name[P->fstep], P->fk, fk_name[P->fkind]);
+        buf_printf(b, "prog %s %d\nfault step=%s k=%d kind=%s linger=%d\n", P->prog, P->tok, fs_name[P->fstep], P->fk, fk_name[P->fkind], P->linger);
         return;
     }
     for (int i = 0; i < P->nsteps; i++) buf_printf(b, "call kind=%s a=%ld b=%ld\n", st_name[P->st[i].kind], P->st[i].a, P->st[i].b);
@@ -227,7 +233,7 @@ static bool plan_parse(CPlan *P, uint64_t *seed, const char *path) {
         else if (sscanf(line, "sub %7s", P->sub) == 1) {}
         else if (strncmp(line, "knob ", 5) == 0) knobs_parse_line(line);
         else if (sscanf(line, "prog %31s %d", k1, &t) == 2) { snprintf(P->prog, sizeof P->prog, "%s", k1); P->tok = t; }
-        else if (sscanf(line, "fault step=%31s k=%d kind=%31s", k1, &t, k2) == 3) {
+        else if (sscanf(line, "fault step=%31s k=%d kind=%31s linger=%d", k1, &t, k2, &P->linger) >= 3) {
             for (int i = 0; i < FS_NSTEPS; i++) if (!strcmp(fs_name[i], k1)) P->fstep = i;
             for (int i = 0; i < FK_NKINDS; i++) if (!strcmp(fk_name[i], k2)) P->fkind = i;
             P->fk = t;
@@ -248,10 +254,13 @@ static struct Inj {
     int reqs_read;            /* request headers the cop has begun to read (INIT excluded) */
     bool ready_sent; int cop_writes, cop_reads; bool expect_payload; uint32_t pay_left; bool in_hdr;
     int reads_after_init;
-    bool pending_exit; int pending_code;
+    bool pending_exit; int pending_code; bool lingered;
 } J;
 extern void simk_proc_close_fd(SimProc *p, int fd);
 static bool is_cop(SimProc *p) { return p->img && strcmp(p->img->name, "nano_cop") == 0 && !p->in_vfork_child; }
+/* faults are attached to the FIRST co-process instance; a relaunched one behaves */
+static SimProc *first_cop;
+static bool is_target(SimProc *p) { if (!is_cop(p)) return false; if (!first_cop) first_cop = p; return p == first_cop; }
 /* actions that end the process: encoded return value for the pre_syscall hook */
 static int act_process(int kind) {
     switch (kind) {
@@ -265,7 +274,7 @@ static int act_process(int kind) {
 static uint8_t cw_hdr[COP_HEADER_SIZE]; static int cw_hdr_n; static uint32_t cw_pay_left, cw_pay_total; static int cw_mode; static bool cw_is_ready;
 static uint8_t rd_hdr[COP_HEADER_SIZE]; static int rd_hdr_n; static uint32_t rd_pay_left; static int rd_hdrs_done;
 static void c16_post_read(SimProc *p, int fd, const void *buf, size_t got) {
-    if (fd != 0 || !(p->img && strcmp(p->img->name, "nano_cop") == 0)) return;
+    if (fd != 0 || !is_target(p)) return;
     const uint8_t *b = buf;
     for (size_t i = 0; i < got; i++) {
         if (rd_pay_left) { rd_pay_left--; continue; }
@@ -275,10 +284,14 @@ static void c16_post_read(SimProc *p, int fd, const void *buf, size_t got) {
 }
 static int c16_pre_syscall(SimProc *p, const char *name, int fd, size_t n) {
     (void)n;
-    if (!is_cop(p) || !J.armed) return 0;
+    if (!is_target(p) || !J.armed) return 0;
     CPlan *P = J.P;
-    if (J.pending_exit) { J.pending_exit = false; J.fired = true; return 256 + J.pending_code; }
-    if (J.fired) return 0;
+    if (J.pending_exit) { J.pending_exit = false; J.fired = true; if (!P->linger) return 256 + J.pending_code; }
+    if (J.fired) {
+        /* a lingering co-process neither reads further requests nor notices EOF: it sleeps until it is terminated */
+        if (P->linger && strcmp(name, "read") == 0 && fd == 0) { J.lingered = true; sim_block_forever(); }
+        return 0;
+    }
     if (strcmp(name, "read") == 0 && fd == 0 && rd_pay_left == 0 && rd_hdr_n == 0) {
         /* about to read a message header; rd_hdrs_done complete headers so far (INIT is the first) */
         bool hit = false;
@@ -321,7 +334,7 @@ static long c16_write_filter(SimProc *p, SimFile *f, const uint8_t *buf, size_t 
         }
         return -1;
     }
-    if (!is_cop(p)) return -1;
+    if (!is_target(p)) return -1;
     /* cop -> VM: stream parser.  Header bytes are held back until the header is complete, so that it can be
      * rewritten as a whole whatever way the writer's bytes were split over write() calls. */
     size_t i = 0;
@@ -355,13 +368,17 @@ static long c16_write_filter(SimProc *p, SimFile *f, const uint8_t *buf, size_t 
         case FK_BAD_VERSION: h[0] = (uint8_t)(COP_PROTO_VERSION + 1); buf_put(repl, h, sizeof h); J.fired = true; break;
         case FK_BAD_TYPE: h[1] = 0x7f; buf_put(repl, h, sizeof h); J.fired = true; break;
         case FK_OVERSIZE: { uint32_t big = (uint32_t)COP_MAX_PAYLOAD + 1 + (uint32_t)P->fk; memcpy(h + 4, &big, 4); buf_put(repl, h, sizeof h); J.fired = true; break; }
-        case FK_SHORT_PAYLOAD: case FK_UNDEC_STRLEN: case FK_UNDEC_ARRCOUNT: case FK_UNDEC_TAG: {
+        case FK_SHORT_PAYLOAD: case FK_UNDEC_STRLEN: case FK_UNDEC_ARRCOUNT: case FK_UNDEC_TAG: case FK_UNDEC_STRLEN_WRAP: case FK_UNDEC_NESTED: {
             /* replace the whole reply by a hand-made one; the cop's own payload is swallowed */
-            uint8_t pl[32]; uint32_t pn = 0;
+            uint8_t pl[40]; uint32_t pn = 0;
             h[1] = COP_MSG_FFI_RESULT;
             if (P->fkind == FK_SHORT_PAYLOAD) { uint32_t ann = 64; memcpy(h + 4, &ann, 4); pl[0] = TAG_STRING; uint32_t l = 59; memcpy(pl + 1, &l, 4); memcpy(pl + 5, "abc", 3); pn = 8; J.pending_exit = true; J.pending_code = 0; }
             else if (P->fkind == FK_UNDEC_STRLEN) { pl[0] = TAG_STRING; uint32_t l = 0x7ffffff0; memcpy(pl + 1, &l, 4); memcpy(pl + 5, "abcdefgh", 8); pn = 13; memcpy(h + 4, &pn, 4); J.fired = true; }
             else if (P->fkind == FK_UNDEC_ARRCOUNT) { pl[0] = TAG_ARRAY; pl[1] = TAG_INT; uint32_t cn = 0xFFFFFFFFu; memcpy(pl + 2, &cn, 4); pl[6] = TAG_INT; memset(pl + 7, 1, 8); pn = 15; memcpy(h + 4, &pn, 4); J.fired = true; }
+            else if (P->fkind == FK_UNDEC_STRLEN_WRAP) { pl[0] = TAG_STRING; uint32_t l = P->fk == 1 ? 0xFFFFFFFFu : P->fk == 2 ? 0xFFFFFFFBu : 0xFFFFFFF0u; memcpy(pl + 1, &l, 4); memset(pl + 5, 0x42, 11); pn = 16; memcpy(h + 4, &pn, 4); J.fired = true; }
+            else if (P->fkind == FK_UNDEC_NESTED) { /* array of 2 whose second element is an array announcing more elements than bytes left */
+                pl[0] = TAG_ARRAY; pl[1] = TAG_INT; uint32_t cn = 2; memcpy(pl + 2, &cn, 4); pl[6] = TAG_INT; memset(pl + 7, 2, 8);
+                pl[15] = TAG_ARRAY; pl[16] = TAG_STRING; uint32_t c2 = 0x00FFFFFFu; memcpy(pl + 17, &c2, 4); pl[21] = TAG_STRING; pn = 22; memcpy(h + 4, &pn, 4); J.fired = true; }
             else { pl[0] = 0xEE; memset(pl + 1, 0x41, 8); pn = 9; memcpy(h + 4, &pn, 4); J.fired = true; }
             buf_put(repl, h, sizeof h); buf_put(repl, pl, pn);
             cw_mode = 1;
@@ -449,6 +466,7 @@ static void run_c15(CPlan *P, uint64_t seed, Result *r) {
     for (int i = 0; i < sim_nprocs(); i++) { SimProc *p = sim_proc_at(i); if (is_cop(p) && p->alive) res_violation(r, "C16", "orphan-cop"); }
     extern uint64_t audit_fail; extern char audit_msg[];
     if (audit_fail) { res_violation(r, "C14", "audit:%s", audit_msg); }
+    { extern uint64_t alloc_double_free; if (alloc_double_free) res_violation(r, "C15", "double-free"); }
     r->nontrivial = ffi_calls[1] > 0;
     snprintf(r->class_key, sizeof r->class_key, "%s/%016llx", key, (unsigned long long)sim_sched_hash());
     probe(r, "ffi_calls_vm_side", ffi_calls[0]); probe(r, "ffi_calls_cop_side", ffi_calls[1]); probe(r, "seam_bytes_compared", ffi_log[0].len);
@@ -461,7 +479,7 @@ static void run_c16(CPlan *P, uint64_t seed, Result *r) {
     Ref *ref = ref_lookup(P->prog, P->tok);
     if (!m || !ref || !ref->valid) { strcpy(r->verdict, "skip"); return; }
     SimKnobs saved = K; sim_reset(); K = saved; sim_seed(seed ^ 0xC16C16ull);
-    memset(&J, 0, sizeof J); J.P = P; J.armed = P->fstep >= 0 && P->fstep != FS_EXEC_FAIL;
+    first_cop = NULL; memset(&J, 0, sizeof J); J.P = P; J.armed = P->fstep >= 0 && P->fstep != FS_EXEC_FAIL;
     rd_hdr_n = 0; rd_pay_left = 0; rd_hdrs_done = 0; vm_hdr_n = 0; vm_pay_left = 0; cw_hdr_n = 0; cw_pay_left = cw_pay_total = 0; cw_mode = 0; cw_is_ready = false;
     if (P->fstep == FS_EXEC_FAIL) sim_exec_set_missing("nano_cop", true); else sim_exec_set_missing("", false);
     sim_hooks.pre_syscall = c16_pre_syscall; sim_hooks.write_filter = c16_write_filter; sim_hooks.post_read = c16_post_read;
@@ -492,10 +510,12 @@ static void run_c16(CPlan *P, uint64_t seed, Result *r) {
         }
     }
     for (int i = 0; i < sim_nprocs(); i++) { SimProc *p = sim_proc_at(i); if (is_cop(p) && p->alive) { res_violation(r, "C16", "orphan-cop:%s:%s", cell, fk_name[P->fkind]); buf_printf(&r->detail, "a nano_cop process (pid %d) is still alive after the VM exited\n", p->pid); } }
+    { extern uint64_t alloc_double_free;
+      if (alloc_double_free) { res_violation(r, "C16", "double-free:%s:%s", cell, fk_name[P->fkind]); buf_printf(&r->detail, "a heap block was freed twice on the error path (%llu times); with a production allocator this aborts or corrupts the VM\n", (unsigned long long)alloc_double_free); } }
     r->nontrivial = J.fired || P->fstep == FS_EXEC_FAIL;
     snprintf(r->class_key, sizeof r->class_key, "%s/%s/k%d/%016llx", cell, fk_name[P->fkind], P->fk, (unsigned long long)sim_sched_hash());
     { char nm[80]; snprintf(nm, sizeof nm, "cell_%s_%s", cell, fk_name[P->fkind]); probe(r, nm, 1); }
-    probe(r, "fault_fired", J.fired); probe(r, "vm_exit0_recovered", !vm->alive && WIFEXITED(vm->status) && WEXITSTATUS(vm->status) == 0 && (J.fired || P->fstep == FS_EXEC_FAIL));
+    probe(r, "fault_fired", J.fired); probe(r, "cop_lingered_until_terminated", J.lingered); probe(r, P->prog[3] == 'b' ? "large_call_class" : "small_call_class", 1); probe(r, "vm_exit0_recovered", !vm->alive && WIFEXITED(vm->status) && WEXITSTATUS(vm->status) == 0 && (J.fired || P->fstep == FS_EXEC_FAIL));
     probe(r, "vm_exit1_reported", !vm->alive && WIFEXITED(vm->status) && WEXITSTATUS(vm->status) == 1);
     probe(r, "cop_relaunches", S.execs > 1 ? S.execs - 1 : 0);
     buf_printf(&r->detail, "outcome: status=0x%x out=%zuB err=[%.*s]\n", vm->status, out.len, (int)(err.len > 200 ? 200 : err.len), err.d ? (char *)err.d : "");
